@@ -473,10 +473,9 @@ def apply_order_rules(node, items, opts):
             if len(items) == 1:
                 items.insert(0, Item("attr", "name", shape="string", toks=[str_tok("of")], value="of"))
     if "querymap-style-keyword" in opts.gated and node.type == "querymap":
-        for i, it in enumerate(items):
-            if it.key == "style":
-                items.append(items.pop(i))
-                break
+        styles = [it for it in items if it.key == "style"]
+        if styles:
+            items[:] = [it for it in items if it.key != "style"] + [styles[-1]]
 
 
 def gen_document(r, opts=None, root=None):
